@@ -6,15 +6,15 @@ def b01 (b : Bool) : String := if b then "1" else "0"
 
 /-- one operation of a listener history -/
 inductive Op where
-  | recv (data : Bytes) (addr : String) (port : Nat) (now : Int) (draw : Nat) (valid qu entries : Bool)
+  | recv (data : Bytes) (addr : String) (port : Nat) (now : Int) (draw : Nat) (valid : Bool) (qclasses : List Nat) (entries : Bool)
   | tcfire (addr : String)
 
 def Op.parse : Tok Op := do
   let k ← Tok.next
   if k = "r" then
     let data ← Tok.bytes; let addr ← Tok.str; let port ← Tok.nat; let now ← Tok.int; let draw ← Tok.nat
-    let valid ← Tok.bool; let qu ← Tok.bool; let entries ← Tok.bool
-    pure (.recv data addr port now draw valid qu entries)
+    let valid ← Tok.bool; let qcs ← Tok.natList; let entries ← Tok.bool
+    pure (.recv data addr port now draw valid qcs entries)
   else if k = "t" then
     let addr ← Tok.str
     pure (.tcfire addr)
@@ -25,8 +25,9 @@ def headerFlags (d : Bytes) : Nat :=
   | _ :: _ :: a :: b :: _ => a.toNat * 256 + b.toNat
   | _ => 0
 
-/-- the logging handler: downstream state = `registry.has_entries`; `valid`/`has_qu_question` come from the
-real parser (table), `is_query`/`truncated` are recomputed from the header with the generated leaves -/
+/-- the logging handler: downstream state = `registry.has_entries`; `valid` comes from the real parser (table);
+`has_qu_question` = some question class read off the wire has the top bit (generated leaf `Gen.Dns.unique_of`);
+`is_query`/`truncated` are recomputed from the header with the generated leaves -/
 def handler (table : List (Bytes × Bool × Bool)) : Handler Bool String Bool where
   parse d :=
     let (v, q) := ((table.find? (fun e => e.1 == d)).map (·.2)).getD (false, false)
@@ -63,7 +64,9 @@ def runOps (H : Handler Bool String Bool) : State Bool → List Op → List Stri
 def c16run (toks : List String) : String :=
   match (do let ops ← Tok.list Op.parse; Tok.done; pure ops : Tok (List Op)).run toks with
   | some (ops, _) =>
-    let table := ops.filterMap (fun o => match o with | .recv d _ _ _ _ v q _ => some (d, v, q) | _ => none)
+    let table := ops.filterMap (fun o => match o with
+      | .recv d _ _ _ _ v qcs _ => some (d, v, qcs.any Gen.Dns.unique_of)
+      | _ => none)
     ";".intercalate (runOps (handler table) (State.init false) ops)
   | none => "bad-op"
 
